@@ -329,7 +329,8 @@ func (s emptyElementPseudoClassSelector) Match(n *html.Node) bool {
 		case html.ElementNode:
 			return false
 		case html.TextNode:
-			if strings.TrimSpace(nodeText(c)) == "" {
+			// document white space only (a no-break space is content)
+			if strings.Trim(nodeText(c), " \t\n\f\r") == "" {
 				continue
 			} else {
 				return false
